@@ -144,6 +144,14 @@ type lspOp struct {
 	Ts     []int  `json:"ts"`
 	P      int    `json:"p"`
 	Latest int    `json:"latest"`
+	V      int    `json:"v"` // the client's version number of the document (Lsp.tla: 1 at every (re-)open, + 1 per change); 0 = not given
+}
+
+func verOr(v, dflt int) int {
+	if v > 0 {
+		return v
+	}
+	return dflt
 }
 
 func uriOf(u int) string { return fmt.Sprintf("file:///doc%d.num", u) }
@@ -196,13 +204,13 @@ func applyOp(st *lsp.State, op lspOp) (reply string, published []any, panicMsg s
 		td := J{"uri": uriOf(op.U)}
 		switch op.Op {
 		case "open":
-			r = lsp.Handle(lspReq("textDocument/didOpen", J{"textDocument": J{"uri": uriOf(op.U), "languageId": "numscript", "version": 1, "text": lspTexts[op.Ts[0]]}}), st)
+			r = lsp.Handle(lspReq("textDocument/didOpen", J{"textDocument": J{"uri": uriOf(op.U), "languageId": "numscript", "version": verOr(op.V, 1), "text": lspTexts[op.Ts[0]]}}), st)
 		case "change":
 			cs := []any{}
 			for _, t := range op.Ts {
 				cs = append(cs, J{"text": lspTexts[t]})
 			}
-			r = lsp.Handle(lspReq("textDocument/didChange", J{"textDocument": J{"uri": uriOf(op.U), "version": 2}, "contentChanges": cs}), st)
+			r = lsp.Handle(lspReq("textDocument/didChange", J{"textDocument": J{"uri": uriOf(op.U), "version": verOr(op.V, 2)}, "contentChanges": cs}), st)
 		case "hover":
 			p := lspProbes[op.P]
 			r = lsp.Handle(lspReq("textDocument/hover", J{"textDocument": td, "position": J{"line": p[0], "character": p[1]}}), st)
